@@ -51,11 +51,19 @@ impl PatProp for Options {
                 Built::Panic(p) => Err(Fail::new("compile-panic", "Ok", p)),
             }
         };
-        let opt_ci = match need(engine::build_with(pat, |b| { b.case_insensitive(true); }), "case_insensitive(true)") {
+        // the case-insensitive form may be too big for the automata engine where the plain one is not: then both
+        // ways of asking for it must fail alike
+        let (bo, bf) = (engine::build_with(pat, |b| { b.case_insensitive(true); }), engine::build(&format!("(?i){}", pat)));
+        if let (Built::Err(e1), Built::Err(e2)) = (&bo, &bf) {
+            if engine::err_kind(e1) == engine::err_kind(e2) {
+                return Prep::Skip("compile:case-insensitive-form-rejected-both-ways");
+            }
+        }
+        let opt_ci = match need(bo, "case_insensitive(true)") {
             Ok(r) => r,
             Err(f) => return Prep::Fail(f),
         };
-        let flag_ci = match need(engine::build(&format!("(?i){}", pat)), "(?i) prefix") {
+        let flag_ci = match need(bf, "(?i) prefix") {
             Ok(r) => r,
             Err(f) => return Prep::Fail(f),
         };
